@@ -21,6 +21,7 @@ fn with_prop(id: &str, f: &mut dyn FnMut(&dyn Runner)) -> bool {
         "C03" => f(&HistProp(Which::C03)),
         "C04" => f(&HistProp(Which::C04)),
         "C05" => f(&props::c05::C05),
+        "C06" => f(&props::c06::C06),
         "C07" => f(&props::c07::C07),
         "C08" => f(&props::c08::C08),
         "C09" => f(&HistProp(Which::C09)),
